@@ -71,18 +71,26 @@ static std::vector<tinfo>* g_tasks = nullptr;
 static std::mutex g_flag_mtx;
 static std::vector<std::shared_ptr<std::atomic<bool>>> g_flags;
 static std::atomic<bool> g_flag_stop{false};
+// semaphores on which a task waits through the TIMED overload are released by the same OS thread (a task polling its
+// deadline is re-queued with boosted priority and could starve a releasing task)
+static std::vector<std::shared_ptr<pika::counting_semaphore<>>> g_sems;
 static void flag_setter()
 {
+    std::uint64_t k = 0;
     while (!g_flag_stop.load())
     {
         std::vector<std::shared_ptr<std::atomic<bool>>> todo;
+        std::vector<std::shared_ptr<pika::counting_semaphore<>>> sems;
         {
             std::lock_guard<std::mutex> l(g_flag_mtx);
             todo.swap(g_flags);
+            sems.swap(g_sems);
         }
-        if (todo.empty()) { std::this_thread::sleep_for(std::chrono::microseconds(50)); continue; }
-        std::this_thread::sleep_for(std::chrono::microseconds(100));
+        if (todo.empty() && sems.empty()) { std::this_thread::sleep_for(std::chrono::microseconds(50)); continue; }
+        // varying delay: the release lands before, around and after the waiter's deadline
+        std::this_thread::sleep_for(std::chrono::microseconds(20 + 37 * (k++ % 9)));
         for (auto& f : todo) f->store(true);
+        for (auto& sm : sems) sm->release();
     }
 }
 
@@ -164,6 +172,10 @@ static void task_body(long id, std::uint64_t seed, int depth, int maxdepth, int 
         bool shake = !nostack && r.below(3) != 0;
         // spin = the parent polls a flag through yield_while (boosted yields after 16 polls)
         bool spin = shake && r.below(3) == 0;
+        // timed = the parent blocks through the TIMED overload (registers in the cv queue, then polls its deadline by
+        // yielding pending_boost); the release may land while the worker is still switching the yielded task off
+        bool timed = shake && !spin && r.below(3) == 0;
+        long timed_us = 20 + long(r.below(300));
         auto sem = std::make_shared<pika::counting_semaphore<>>(0);
         auto flag = std::make_shared<std::atomic<bool>>(false);
         for (int c = 0; c < w; ++c)
@@ -183,7 +195,7 @@ static void task_body(long id, std::uint64_t seed, int depth, int maxdepth, int 
                             pika::this_thread::yield();
                             cg.resume_();
                         }
-                        if (!spin) sem->release();
+                        if (!spin && !timed) sem->release();
                         if (depth + 1 < maxdepth) spawn(r2.next(), depth + 1, maxdepth, width);
                     }));
             }
@@ -199,6 +211,15 @@ static void task_body(long id, std::uint64_t seed, int depth, int maxdepth, int 
                     g_flags.push_back(flag);
                 }
                 pika::util::yield_while([&] { return !flag->load(); }, "e2 spin");
+            }
+            else if (timed)
+            {
+                {
+                    std::lock_guard<std::mutex> l(g_flag_mtx);
+                    g_sems.push_back(sem);
+                }
+                // the external thread releases exactly once: a timed-out attempt is repeated until the permit is taken
+                while (!sem->try_acquire_for(std::chrono::microseconds(timed_us))) {}
             }
             else sem->acquire();
             g.resume_();
